@@ -294,13 +294,14 @@ def content_key(rec):
             rec['emailid'], rec['threadid'])
 
 
-def enc_entries(view) -> str:
-    return T.lst(T.pair(T.N(r['uid']), T.N(r['seq']), T.lst(T.bytes_(f) for f in r['flags']))
-                 for r in view)
+def enc_entries(view, cids: dict) -> str:
+    return T.lst(T.pair(T.N(cids[(r['uid'], content_key(r))][0]), T.N(r['uid']), T.N(r['seq']),
+                        T.lst(T.bytes_(f) for f in r['flags'])) for r in view)
 
 
-def enc_pool(pool: dict) -> str:
-    return T.lst(T.pair(T.N(uid), enc_content(rec)) for uid, rec in sorted(pool.items()))
+def enc_pool(cids: dict) -> str:
+    """cids: (uid, content_key) -> (content id, record)"""
+    return T.lst(T.pair(T.N(cid), enc_content(rec)) for cid, rec in sorted(cids.values(), key=lambda x: x[0]))
 
 
 def enc_msg(rec) -> str:
@@ -409,6 +410,8 @@ def gen_message(rng) -> bytes:
         hdr('Date', rng.choice(['garbage', '32 Foo 2019', '']))
     if rng.random() < 0.3:
         hdr('X-Custom', _words(rng, 1, 2))
+    for _ in range(rng.choice([0, 0, 1, 2, 2, 3])):      # a repeated field, one word each
+        hdr('X-Tag', rng.choice(WORDS))
     if rng.random() < 0.2:
         hdr('Priority', rng.choice(['high', 'low', '']))
     rng.shuffle(lines)
@@ -517,6 +520,10 @@ class KeyGen:
         self.sizes = [r['size'] for r in view] or [100]
         self.hvals = [v for r in view for _n, v in r['headers']]
         self.hnames = sorted({n.decode('latin-1') for r in view for n, _v in r['headers']}) or ['subject']
+        self.byname: dict[str, list[str]] = {}
+        for r in view:
+            for n, v in r['headers']:
+                self.byname.setdefault(n.decode('latin-1'), []).append(v)
         self.texts = []
         for r in view:
             for h, _t, b in r['parts']:
@@ -547,10 +554,13 @@ class KeyGen:
                 else rng.choice([0, 1, 10 ** 12])
             return (rng.choice(['LARGER', 'SMALLER']), max(0, n))
         if kind == 'HEADER':
-            name = rng.choice(self.hnames + ['X-None', 'subject', 'from'])
-            return ('HEADER', _name_case(rng, name), gen_needle(rng, self.hvals))
+            name = rng.choice(self.hnames + ['X-None', 'subject', 'from', 'x-tag', 'to'])
+            pool = self.byname.get(name.lower()) if rng.random() < 0.7 else None
+            return ('HEADER', _name_case(rng, name), gen_needle(rng, pool or self.hvals))
         if kind == 'FIELD':
-            return ('FIELD', rng.choice(FIELDS), '' if rng.random() < 0.1 else gen_needle(rng, self.hvals))
+            field = rng.choice(FIELDS)
+            pool = self.byname.get(field.lower()) if rng.random() < 0.7 else None
+            return ('FIELD', field, '' if rng.random() < 0.1 else gen_needle(rng, pool or self.hvals))
         if kind in ('BODY', 'TEXT'):
             return (kind, gen_needle(rng, self.texts))
         if kind == 'UID':
@@ -624,10 +634,10 @@ def parse_probe(resp: bytes) -> list[dict]:
                 if resp[p:p + 3] == b'NIL':
                     rec[key] = b''
                     p += 3
-                else:
-                    e = resp.index(b')', p)
-                    rec[key] = resp[p + 1:e]
-                    p = e + 1
+                else:       # "(id)"; the maildir backend prints "((id))"
+                    mm = re.compile(rb'\(+([^()]*)\)+').match(resp, p)
+                    rec[key] = mm.group(1)
+                    p = mm.end()
             elif name == b'BODY[]':
                 if resp[p:p + 1] == b'{':
                     e = resp.index(b'}', p)
@@ -687,6 +697,14 @@ def oracle_record(raw_rec: dict) -> dict:
     email) applied to the probed octets: they are ORACLE data."""
     from pymap.mime import MessageContent
     from pymap.message import BaseLoadedMessage
+    if not raw_rec['raw']:
+        # no octets: the backend holds no content for this message (the file of
+        # an expunged maildir message is gone; an empty APPEND is refused), which
+        # the code treats as _NoContent: no headers, no envelope, no parts, size 0
+        return {'uid': raw_rec['uid'], 'seq': raw_rec['seq'], 'flags': list(raw_rec['flags']),
+                'size': raw_rec['size'], 'idate': idate_of(raw_rec['internaldate']), 'sdate': None,
+                'headers': [], 'parts': [], 'emailid': raw_rec.get('emailid', b''),
+                'threadid': raw_rec.get('threadid', b''), 'reparsed_len': 0}
     content = MessageContent.parse(raw_rec['raw'])
     parsed = content.header.parsed
     headers = []
@@ -825,6 +843,8 @@ def rfc_eval(k, mv: MsgView, exists: int, maxuid: int):
             vals = vals[:1]
         return any(ci_in(k[2], v) for v in vals)
     if t in ('BODY', 'TEXT'):
+        if not mv.raw:          # no octets at all (content of an expunged maildir file): nothing
+            return None         # to search, whether "" occurs in nothing is left open
         needle = k[1].encode('utf-8')
         must = any(ci_in(needle, p) for p in mv.text_payloads())
         may = ci_in(needle, mv.body_raw)
@@ -877,3 +897,76 @@ def rfc_search(prog, mvs: list[MsgView]):
         if r is not False:
             may.append(mv.seq)
     return must, may
+
+
+# ------------------------------------------- parser values, Python-side canon
+def py_compile(k, inv: bool = False):
+    """The value SearchKey.parse is expected to build for key k, as a plain
+    tuple (name, filter, inverse) — mirrors Keys.v [compile]."""
+    t = k[0]
+    if t == 'NOT':
+        return py_compile(k[1], not inv)
+    if t == 'OR':
+        return (b'OR', (py_compile(k[1]), py_compile(k[2])), inv)
+    if t == 'AND':
+        return (b'KEYSET', tuple(py_compile(x) for x in k[1]), inv)
+    if t == 'ALL' or t == 'NEW':
+        return (t.encode(), None, inv)
+    if t == 'SET':
+        return (SET_WORD[k[1]], None, inv)
+    if t == 'UNSET':
+        return (UNSET_WORD[k[1]], None, inv)
+    if t in ('KEYWORD', 'UNKEYWORD'):
+        return (t.encode(), ('flag', k[1]), inv)
+    if t in DATE_KEYS:
+        return (t.encode(), ('date', k[1]), inv)
+    if t in ('LARGER', 'SMALLER'):
+        return (t.encode(), ('int', k[1]), inv)
+    if t == 'HEADER':
+        return (b'HEADER', ('hdr', k[1], k[2]), inv)
+    if t == 'FIELD':
+        return (k[1].encode(), ('str', k[2]), inv)
+    if t in ('BODY', 'TEXT'):
+        return (t.encode(), ('str', k[1]), inv)
+    if t in ('UID', 'SEQ'):
+        return (b'SEQSET', ('set', t == 'UID', tuple(k[1])), inv)
+    if t in ('EMAILID', 'THREADID'):
+        return (t.encode(), ('obj', k[1]), inv)
+    raise ValueError(k)
+
+
+def canon_skey(sk):
+    """A real SearchKey as the same kind of tuple."""
+    from datetime import datetime
+    from pymap.parsing.specials import SequenceSet, ObjectId
+    from pymap.parsing.specials.flag import Flag
+    from pymap.parsing.specials.sequenceset import MaxValue
+    name, filt, inv = sk.value, sk.filter, bool(sk.inverse)
+    if name == b'KEYSET':
+        return (name, tuple(canon_skey(x) for x in filt), inv)
+    if name == b'OR':
+        return (name, (canon_skey(filt[0]), canon_skey(filt[1])), inv)
+    if filt is None:
+        f = None
+    elif isinstance(filt, SequenceSet):
+        def conv(i):
+            return '*' if isinstance(i, MaxValue) else i
+        f = ('set', bool(filt.uid), tuple((conv(e[0]), conv(e[1])) if isinstance(e, tuple) else conv(e)
+                                          for e in filt.sequences))
+    elif isinstance(filt, Flag):
+        f = ('flag', filt.value)
+    elif isinstance(filt, datetime):
+        f = ('date', (filt.year, filt.month, filt.day)) if (filt.hour, filt.minute, filt.second,
+                                                            filt.tzinfo) == (0, 0, 0, None) \
+            else ('datetime', repr(filt))
+    elif isinstance(filt, int) and not isinstance(filt, bool):
+        f = ('int', filt)
+    elif isinstance(filt, str):
+        f = ('str', filt)
+    elif isinstance(filt, tuple) and len(filt) == 2:
+        f = ('hdr', filt[0], filt[1])
+    elif isinstance(filt, ObjectId):
+        f = ('obj', filt.object_id)
+    else:
+        f = ('other', repr(filt))
+    return (name, f, inv)
